@@ -628,15 +628,21 @@ class BaseTrigger(ABC):
                 continue
             for vc_id in context.valid_conditions.keys():
                 condition_to_pending_triggers[vc_id].discard(trigger.trigger_id)
-            trigger_run_ids = trigger.generate_trigger_run_ids(context)
-            for run_id in trigger_run_ids:
-                if self.claim_trigger_run(run_id):
-                    args = trigger.get_arguments(context)
-                    self.execute_task(trigger.task_id, args)
-                    # For OR logic, continue processing other run IDs
-                    # For AND logic, only one run ID is generated, so this has no effect
-                    if trigger.logic == CompositeLogic.AND:
-                        break
+            # A trigger on a single condition, or combining conditions with OR, runs once
+            # per pending occurrence, with the arguments derived from that occurrence.
+            # AND over several conditions runs once with everything that is pending.
+            run_contexts = [context]
+            if trigger.logic == CompositeLogic.OR or len(trigger.condition_ids) == 1:
+                run_contexts = [
+                    TriggerContext(valid_conditions={vc_id: valid_condition})
+                    for vc_id, valid_condition in context.valid_conditions.items()
+                    if valid_condition.condition.condition_id in trigger.condition_ids
+                ]
+            for run_context in run_contexts:
+                for run_id in trigger.generate_trigger_run_ids(run_context):
+                    if self.claim_trigger_run(run_id):
+                        args = trigger.get_arguments(run_context)
+                        self.execute_task(trigger.task_id, args)
         # Clean up the valid conditions that are no longer needed
         # Because all the triggers that required already ran
         conditions_to_clean = [
